@@ -199,6 +199,12 @@ inline void sweep_C11(World& w, const WSnap& s, Sink& out, C11Stats& st) {
         const Points& P = f.points(); Points& Pn = f.points_nonConst();
         posSweep("point", fs.pts.size(), [&](size_t i) -> const Point& { return P.point(i); }, [&](const Point& p, size_t i) { return ptEq(p, fs.pts[i]); }, out, st);
         posSweep("point_nonConst", fs.pts.size(), [&](size_t i) -> Point& { return Pn.point_nonConst(i); }, [&](Point& p, size_t i) { return ptEq(p, fs.pts[i]); }, out, st);
+        for (size_t i = 0; i < fs.pts.size(); ++i) {   // the vector accessors return the same four numbers as x(), y(), z(), residual()
+            st.lookups += 2; std::vector<float> d = P.point(i).data(), dn = Pn.point_nonConst(i).data_nonConst();
+            auto same4 = [&](const std::vector<float>& v) { return v.size() == 4 && fbits(v[0]) == fs.pts[i].v[0] && fbits(v[1]) == fs.pts[i].v[1] && fbits(v[2]) == fs.pts[i].v[2] && fbits(v[3]) == fs.pts[i].v[3]; };
+            if (!same4(d)) V(out, "C11", "point.data()_differs_from_components", "frame " + S(fi) + " point " + S(i));
+            if (!same4(dn)) V(out, "C11", "point.data_nonConst()_differs_from_components", "frame " + S(fi) + " point " + S(i));
+        }
         std::vector<std::string> pn = ptNames(fs);
         nameSweep("point", pn, [&](const std::string& n) { return P.pointIdx(n); }, [&](const std::string& n) -> const Point& { return P.point(n); }, [&](const Point& p, size_t i) { return ptEq(p, fs.pts[i]); }, out, st);
         nameSweep("point_nonConst", pn, [&](const std::string& n) { return Pn.pointIdx(n); }, [&](const std::string& n) -> Point& { return Pn.point_nonConst(n); }, [&](Point& p, size_t i) { return ptEq(p, fs.pts[i]); }, out, st);
